@@ -1807,6 +1807,8 @@ def gen_c19(rng: random.Random, tier: str) -> Dict[str, Any]:
     cfg = A.gen_agent_cfg(rng, algo=rng.choice(["NeuralUCB", "NeuralTS"]))
     if cfg["hp"] == "shared":
         cfg["hp"] = "private"
+    if cfg["batch_size"] in (4, 5):  # (derived, not drawn: the case stream stays what it was)
+        cfg["head_out_act"] = "Tanh" if cfg["batch_size"] == 4 else "Sigmoid"
     ops = []
     for _ in range(rng.randint(3, 14 if tier == "quick" else 40)):
         x = rng.random()
